@@ -295,24 +295,31 @@ pub fn build_ops(rep: &mut Replica<InMemoryStorage>, descs: &[Value]) -> Operati
 }
 
 /// Reference semantics of the documented operation rules, applied to the JSON form of a version.
+/// Anything that is not in the documented format is skipped (and shows up as a difference).
 pub fn apply_version_json(tasks: &mut Tasks, version: &Value) {
-    for op in version["operations"].as_array().cloned().unwrap_or_default() {
+    fn uuid_of_field(v: &Value) -> Option<u128> {
+        v.get("uuid").and_then(|u| u.as_str()).and_then(|s| Uuid::parse_str(s).ok()).map(|u| u.as_u128())
+    }
+    for op in version.get("operations").and_then(|o| o.as_array()).cloned().unwrap_or_default() {
         if let Some(c) = op.get("Create") {
-            let u = Uuid::parse_str(c["uuid"].as_str().unwrap()).unwrap().as_u128();
-            tasks.entry(u).or_default();
+            if let Some(u) = uuid_of_field(c) {
+                tasks.entry(u).or_default();
+            }
         } else if let Some(d) = op.get("Delete") {
-            let u = Uuid::parse_str(d["uuid"].as_str().unwrap()).unwrap().as_u128();
-            tasks.remove(&u);
+            if let Some(u) = uuid_of_field(d) {
+                tasks.remove(&u);
+            }
         } else if let Some(up) = op.get("Update") {
-            let u = Uuid::parse_str(up["uuid"].as_str().unwrap()).unwrap().as_u128();
+            let (Some(u), Some(p)) = (uuid_of_field(up), up.get("property").and_then(|p| p.as_str())) else {
+                continue;
+            };
             if let Some(t) = tasks.get_mut(&u) {
-                let p = up["property"].as_str().unwrap().to_string();
-                match up["value"].as_str() {
+                match up.get("value").and_then(|v| v.as_str()) {
                     Some(v) => {
-                        t.insert(p, v.to_string());
+                        t.insert(p.to_string(), v.to_string());
                     }
                     None => {
-                        t.remove(&p);
+                        t.remove(p);
                     }
                 }
             }
@@ -521,11 +528,47 @@ pub fn run(scn: &Value) -> Value {
         apply_version_json(&mut chain_state, &doc);
         versions.push(json!({"parent": num_of(*p) as u64, "id": num_of(*v) as u64, "doc": abbreviate(&doc), "bytes": data.len()}));
     }
+    let mut snaps_out = Vec::new();
+    for (v, d, n) in stb.snapshots.iter() {
+        // decode the snapshot (zlib + JSON object uuid -> properties) and replay the chain up to its version
+        let mut text = String::new();
+        let decoded: Value = {
+            use std::io::Read;
+            let mut dec = flate2::read::ZlibDecoder::new(&d[..]);
+            match dec.read_to_string(&mut text) {
+                Ok(_) => serde_json::from_str(&text).unwrap_or(Value::Null),
+                Err(_) => Value::Null,
+            }
+        };
+        let mut snap_tasks = Tasks::new();
+        if let Some(o) = decoded.as_object() {
+            for (k, tm) in o {
+                let u = Uuid::parse_str(k).map(|u| u.as_u128()).unwrap_or(u128::MAX);
+                let mut m = BTreeMap::new();
+                if let Some(tmo) = tm.as_object() {
+                    for (pk, pv) in tmo {
+                        m.insert(pk.clone(), pv.as_str().unwrap_or("<non-string>").to_string());
+                    }
+                }
+                snap_tasks.insert(u, m);
+            }
+        }
+        let mut at = Tasks::new();
+        for (_, cv, data) in stb.chain.iter() {
+            let doc: Value = serde_json::from_slice(data).unwrap_or(Value::Null);
+            apply_version_json(&mut at, &doc);
+            if cv == v {
+                break;
+            }
+        }
+        snaps_out.push(json!({"version": num_of(*v) as u64, "bytes": d.len(), "chain_len": n,
+            "is_object": decoded.is_object(), "tasks": tasks_json(&snap_tasks), "chain_state_at_version": tasks_json(&at)}));
+    }
     json!({
         "steps": results,
         "replicas": reps_out,
         "server": {"versions": versions, "chain_state": tasks_json(&chain_state),
-                   "snapshots": stb.snapshots.iter().map(|(v, d, n)| json!({"version": num_of(*v) as u64, "bytes": d.len(), "chain_len": n})).collect::<Vec<_>>(),
+                   "snapshots": snaps_out,
                    "requests": stb.log.len()},
     })
 }
